@@ -206,7 +206,10 @@ def class_cases(draw) -> t.Any:
     if mode == 'in_many':
         # several input styles at once: every field is reachable under its canonical name in each of them
         return [fields, draw(st.lists(st.sampled_from(STYLES), min_size=2, max_size=4, unique=True)), mode]
-    return [fields, style, mode]
+    # other input names given for a field (aliases= keeps the styled name and adds some, in_names= replaces them) leave the name it is
+    # *written* under alone: that stays the canonical spelling of the class's style
+    naming = [draw(st.sampled_from(['plain', 'plain', 'aliases', 'in_names'])) for _ in fields]
+    return [fields, style, mode, naming]
 
 
 _KEEP: t.List[t.Any] = []
@@ -214,7 +217,8 @@ _KEEP: t.List[t.Any] = []
 
 def check_class(case: t.Any, ctx: Ctx) -> None:
     import pane
-    (fields, style, mode) = case
+    (fields, style, mode) = case[:3]
+    naming = case[3] if len(case) > 3 else ['plain'] * len(fields)
     fnames = ['_'.join(ws) for ws in fields]
     ctx.label(f"class:{mode}:{style if isinstance(style, str) else 'several'}")
     ctx.nontrivial(any(len(ws) >= 2 for ws in fields))
@@ -242,7 +246,14 @@ def check_class(case: t.Any, ctx: Ctx) -> None:
         opts = {'rename': style}
     elif mode == 'in_out':
         opts = {'in_rename': (style,), 'out_rename': style}
-    ns = {'__annotations__': {n: int for n in fnames}}
+    ns: t.Dict[str, t.Any] = {'__annotations__': {n: int for n in fnames}}
+    for (n, how) in zip(fnames, naming):
+        if how == 'aliases':
+            ns[n] = pane.field(aliases=[f"alt-{n}"])
+        elif how == 'in_names':
+            ns[n] = pane.field(in_names=[f"alt-{n}", f"other-{n}"])
+    if any(how != 'plain' for how in naming):
+        ctx.label('class:with-field-input-names')
     cls = type('RenCls', (pane.PaneBase,), ns, **opts)
     _KEEP.append(cls)
     inst = cls(**{n: i for (i, n) in enumerate(fnames)})
@@ -255,8 +266,10 @@ def check_class(case: t.Any, ctx: Ctx) -> None:
         return
     got = inst.into_data()
     if got != want or list(got) != list(want):
-        ctx.fail('observed', 'into_data', f"into_data() of class {opts} fields {fnames} = {got!r}, want {want!r}")
+        ctx.fail('observed', 'into_data', f"into_data() of class {opts} fields {fnames} (input names: {naming}) = {got!r}, want {want!r}")
         return
+    if 'in_names' in naming:
+        return      # (a field read under other names only does not read its own output name: not this property's subject)
     try:
         back = cls.from_data(want)
     except pane.ConvertError as e:
